@@ -26,6 +26,7 @@ func round12(c *Ctx, r *Report, p string) {
 	case "C18":
 		borrow(c, r, c08R3, "C08.R3.buffer", "C18.R3.pack-in-place", 1, "PackBuffer returns the buffer it was given whenever that buffer holds the uncompressed message: SIG.Sign tests &buf[0] against the result", nil, "SIG.Sign refuses with ErrBuf every message PackBuffer moved into a buffer of its own")
 	case "C07":
+		subParserInheritsFS(c, r, "C07.R5.sub-parser-inherits-fs")
 		readRRReportsErr(c, r, "C07.R4.readrr-reports-err")
 	case "C17":
 		iterationsOnlyHashed(c, r, "C17.R4.iterations-only-hashed")
